@@ -372,13 +372,18 @@ Fixpoint span_nonspace (l : list Z) : list Z * list Z :=
 Definition extract_word (l : list Z) : ext (list Z) :=
   match span_nonspace l with ([], _) => ExtFail | (w, r) => ExtOk w r end.
 
+(* the value just read is followed by white space or by the end of the text *)
+Definition delimited (rest : list Z) : bool := match rest with [] => true | c :: _ => is_space c end.
+
 Section Values.
   Context {A : Type}.
   Variable extract : list Z -> ext A.
 
-  (* `while (is >> x) { value = x; value_count++; }` of the pinned code:
-     returns the values extracted before the first failure and the unread text *)
-  Fixpoint extract_all (fuel : nat) (l : list Z) : list A * list Z :=
+  (* the loop that reads values: returns the values read and the unread text ([] = everything was consumed).
+     delim = false: `while (is >> x) { ... }` of the pinned code, which stops at the first failure;
+     delim = true: the repaired loop `while (!(is >> std::ws).eof()) { if ((is >> x) && value_is_delimited(is)) ... else error }`:
+     a value must be followed by white space or the end, and unread text is an error *)
+  Fixpoint extract_all (delim : bool) (fuel : nat) (l : list Z) : list A * list Z :=
     match fuel with
     | O => ([], l)
     | S f =>
@@ -386,7 +391,9 @@ Section Values.
       | [] => ([], [])
       | l' => match extract l' with
               | ExtFail => ([], l')
-              | ExtOk v rest => let '(vs, r) := extract_all f rest in (v :: vs, r)
+              | ExtOk v rest =>
+                if delim && negb (delimited rest) then ([], l')
+                else let '(vs, r) := extract_all delim f rest in (v :: vs, r)
               end
       end
     end.
@@ -396,14 +403,14 @@ Section Values.
   (* _get_keyval_scalar_value_ as pinned: exactly one successful extraction before the first failure;
      whatever follows the first failure is never looked at *)
   Definition scalar_value_lenient (data : list Z) : sres :=
-    match fst (extract_all (S (length data)) data) with
+    match fst (extract_all false (S (length data)) data) with
     | [v] => SAccept v
     | _ => SReject
     end.
 
   (* _get_keyval_scalar_value_ after the repair: additionally the whole text must have been consumed *)
   Definition scalar_value (data : list Z) : sres :=
-    match extract_all (S (length data)) data with
+    match extract_all true (S (length data)) data with
     | ([v], []) => SAccept v
     | _ => SReject
     end.
@@ -412,16 +419,16 @@ Section Values.
 
   (* _get_keyval_vector_, values.size() == 0 on entry (pinned: never an error; repaired: unread text is one) *)
   Definition vector_dyn_lenient (data : list Z) : vres :=
-    VAccept (fst (extract_all (S (length data)) data)).
+    VAccept (fst (extract_all false (S (length data)) data)).
   Definition vector_dyn (data : list Z) : vres :=
-    match extract_all (S (length data)) data with (vs, []) => VAccept vs | _ => VReject end.
+    match extract_all true (S (length data)) data with (vs, []) => VAccept vs | _ => VReject end.
 
   (* _get_keyval_vector_, values.size() == n on entry (pinned: n extractions, the rest ignored) *)
   Definition vector_fixed_lenient (n : nat) (data : list Z) : vres :=
-    let vs := fst (extract_all (S (length data)) data) in
+    let vs := fst (extract_all false (S (length data)) data) in
     if (n <=? length vs)%nat then VAccept (firstn n vs) else VReject.
   Definition vector_fixed (n : nat) (data : list Z) : vres :=
-    match extract_all (S (length data)) data with
+    match extract_all true (S (length data)) data with
     | (vs, []) => if (length vs =? n)%nat then VAccept vs else VReject
     | _ => VReject
     end.
